@@ -148,6 +148,9 @@ void _ZNSt13runtime_errorD1Ev(void* a) {}
 void _ZNSt11logic_errorC2EPKc(void* a, void* b) {}
 void _ZNSt11logic_errorC1EPKc(void* a, void* b) {}
 void _ZNSt12domain_errorC1EPKc(void* a, void* b) {}
+void _ZNSt12domain_errorC2EPKc(void* a, void* b) {}
+void _ZNSt12domain_errorC1ERKNSt7__cxx1112basic_stringIcSt11char_traitsIcESaIcEEE(void* a, void* b) {}
+void _ZNSt12domain_errorC2ERKNSt7__cxx1112basic_stringIcSt11char_traitsIcESaIcEEE(void* a, void* b) {}
 void _ZNSt12out_of_rangeC1EPKc(void* a, void* b) {}
 void _ZNSt16invalid_argumentC1EPKc(void* a, void* b) {}
 void _ZNSt16invalid_argumentC1ERKNSt7__cxx1112basic_stringIcSt11char_traitsIcESaIcEEE(void* a, void* b) {}
